@@ -510,6 +510,69 @@ NAMES = ['pca', 'pca+mvdr', 'scaled_gev_atf+mvdr', 'mvdr_souden', 'rank1_pca+mvd
          'rank1_gev+gev', 'wmwf', 'rank1_pca+wmwf', 'rank1_gev+wmwf', 'ch0', 'ch1']
 
 
+def wrapper_layouts_bounded_instance():
+    """Every wrapper name on PSD stacks in every memory layout a caller may hold them in (C order, MATLAB-style (D, D, F) column-major
+    moved to (F, D, D), Hermitian-transposed views, Fortran order): the result equals the one for plain C-ordered copies, the
+    arguments are bit-identical afterwards, and a second call gives the same result (so no step of the chain consumed its input)."""
+    from pb_bss.extraction import beamformer_wrapper as bw
+
+    def make(B):
+        return {'name': B.choose('name', NAMES[:-2] + [n + '+ban' for n in NAMES[:-2]]), 'layout': B.choose('layout', ['C', 'matlab', 'hermitian-view', 'F']),
+                'D': B.choose('D', [2, 3, 5]), 'F': B.choose('F', [1, 4, 9]), 'use_eig': B.choose('use_eig', [False, True]),
+                'seed': B.choose('seed', list(range(3000))), 'd': B.given('d', np.zeros(1))}
+
+    def call(inp):
+        rng = np.random.RandomState(inp['seed'])
+        D, F, name = inp['D'], inp['F'], inp['name']
+
+        def cn(*s_):
+            return rng.normal(size=s_) + 1j * rng.normal(size=s_)
+        a, b = cn(F, D, D), cn(F, D, D)
+        tgt = a @ np.conj(np.swapaxes(a, -1, -2)) + 0.05 * np.eye(D)
+        noi = b @ np.conj(np.swapaxes(b, -1, -2)) + 0.1 * np.eye(D)
+
+        def relayout(m):
+            if inp['layout'] == 'matlab':
+                return np.moveaxis(np.asfortranarray(np.moveaxis(m, 0, -1)), -1, 0)          # (D, D, F) column-major -> (F, D, D) view
+            if inp['layout'] == 'hermitian-view':
+                return np.conj(np.swapaxes(np.ascontiguousarray(np.conj(np.swapaxes(m, -1, -2))), -1, -2))
+            if inp['layout'] == 'F':
+                return np.asfortranarray(m)
+            return m
+        kw = {}
+        core = name.replace('+ban', '')
+        if core.endswith('gev') or core == 'scaled_gev_atf+mvdr':
+            kw = {'use_eig': inp['use_eig']} if core.endswith('gev') and '+' not in core else {}
+        if 'rank1_gev' in core or core == 'scaled_gev_atf+mvdr':
+            kw['atf_kwargs'] = {'use_eig': inp['use_eig']}
+        if core.endswith('mvdr_souden'):
+            kw['ref_channel'] = 0
+        if core.endswith('wmwf'):
+            kw['reference_channel'] = D - 1
+        t1, n1 = relayout(tgt), relayout(noi)
+        t0, n0 = t1.copy(), n1.copy()
+        w = np.asarray(bw.get_bf_vector(name, t1, n1, **kw))
+        untouched = bool(np.array_equal(t1, t0) and np.array_equal(n1, n0))
+        w_again = np.asarray(bw.get_bf_vector(name, t1, n1, **kw))
+        ref = np.asarray(bw.get_bf_vector(name, np.ascontiguousarray(tgt), np.ascontiguousarray(noi), **kw))
+        return {'w': w, 'again': w_again, 'ref': ref, 'untouched': untouched}
+
+    def ensures(sp, inp, out):
+        def same_up_to_phase(x, y):
+            # eigenvectors are defined up to a unit factor per bin; everything else is compared directly first
+            if np.allclose(x, y, rtol=1e-7, atol=1e-9):
+                return True
+            ph = np.sum(np.conj(y) * x, axis=-1, keepdims=True)
+            ph = ph / np.maximum(np.abs(ph), 1e-300)
+            return bool(np.allclose(x, y * ph, rtol=1e-6, atol=1e-8))
+        yield 'arguments-untouched[%s,%s]' % (inp['name'], inp['layout']), out['untouched']
+        yield 'finite', bool(np.all(np.isfinite(out['w'])))
+        yield 'same-result-as-for-c-ordered-copies[%s,%s]' % (inp['name'], inp['layout']), bool(out['w'].shape == out['ref'].shape and same_up_to_phase(out['w'], out['ref']))
+        yield 'second-call-same-result', bool(same_up_to_phase(out['again'], out['w']))
+
+    return Instance('C13', BW + 'get_bf_vector', 'bounded-every-name-in-every-memory-layout', make, call, ensures, mode='bounded', bounded_n=150, frame=False)
+
+
 def instances(tier):
     th = tier == 'thorough'
     out = []
@@ -568,3 +631,10 @@ _instances_before_simplex = instances
 def instances(tier):       # noqa: F811
     from .common import simplex_lemma_instances
     return _instances_before_simplex(tier) + simplex_lemma_instances('C13')
+
+
+_instances_before_layouts = instances
+
+
+def instances(tier):       # noqa: F811
+    return _instances_before_layouts(tier) + [wrapper_layouts_bounded_instance()]
